@@ -297,7 +297,8 @@ def run(ck, facts, tier):
 
     # ---------------- R03.7 result carries the union of the operands' names
     r7 = ck.rule("R03.7", "every binary operator (+ - * / %) on two dual numbers returns, on every path, a number whose variable list is the union list of both operands "
-                          "(on an Arc/ValueEquivalent path an operand's own list, which is then identical); with a float operand, the dual operand's list", floor=100)
+                          "(an operand's own list only on a path guarded by a vars_cmp arm within {ArcEquivalent, ValueEquivalent}, where the lists are identical in order — any "
+                          "other shortcut that skips alignment is reported); with a float operand, the dual operand's list", floor=100)
     from rules import c01
     for num in (D1, D2):
         for r, op, ks in c01.impls(facts, num):
@@ -306,7 +307,7 @@ def run(ck, facts, tier):
             where = "%s:%d" % (r["file"], r["line"])
             vals = [cel.operand("uv"[i], num) if k == "D" else Poly.atom("uv"[i]) for i, k in enumerate(ks)]
             try:
-                got = cel.Ev(facts).apply_fn(r["fn"], vals, 0)
+                got = cel.Ev(facts).apply_fn(r["fn"], vals, 0, collapse=False)
             except Unsupported as e:
                 ck.fail(r7, short(r["fn"]), "rule could not be established (%s)" % e, where)
                 continue
